@@ -1,2 +1,3 @@
 //! Seeded generators shared by the property modules.
 pub mod names;
+pub mod rdata;
